@@ -160,26 +160,26 @@ type ValSnap struct {
 
 // Snap is a decoded view of the alliance state and the balances the properties talk about.
 type Snap struct {
-	Time      time.Time
-	Height    int64
-	Assets    map[string]types.AllianceAsset
-	Denoms    []string // asset denoms in store order
-	Vals      []ValSnap
-	Pos       []Pos
-	Unb       []Unb
-	UnbIdx    []UnbIdx
-	Redels    []Redel
-	RedelIdx  []RedelIdx
-	RedelQ    []Redel // entries of the 0x23 queue
-	Flag      bool
-	Params    types.Params
-	Custody   sdk.Coins
-	Pool      sdk.Coins
-	Fee       sdk.Coins
-	DelBal    []sdk.Coins
-	UnbondingTime time.Duration
-	QueryPanic    string // non-empty when the module's balance function panicked while this state was decoded
-	NSnapshots    int
+	Time           time.Time
+	Height         int64
+	Assets         map[string]types.AllianceAsset
+	Denoms         []string // asset denoms in store order
+	Vals           []ValSnap
+	Pos            []Pos
+	Unb            []Unb
+	UnbIdx         []UnbIdx
+	Redels         []Redel
+	RedelIdx       []RedelIdx
+	RedelQ         []Redel // entries of the 0x23 queue
+	Flag           bool
+	Params         types.Params
+	Custody        sdk.Coins
+	Pool           sdk.Coins
+	Fee            sdk.Coins
+	DelBal         []sdk.Coins
+	UnbondingTime  time.Duration
+	QueryPanic     string // non-empty when the module's balance function panicked while this state was decoded
+	NSnapshots     int
 	AllianceDigest [32]byte
 }
 
